@@ -457,7 +457,9 @@ def exec_for_invariant(engine, ctx, st: ast.For, env: Env, it, inv):
     modified = [n for n in assigned_names(st.body) if n in env.vars]
 
     def inv_clauses(i):
-        ns = NS(i=i, seq=it, lo=lo, hi=hi, ctx=ctx, **{k: v for k, v in env.vars.items()})
+        d = {k: v for k, v in env.vars.items()}
+        d.update(i=i, seq=it, lo=lo, hi=hi, ctx=ctx, carried={k: env.vars[k] for k in modified})
+        ns = NS(**d)
         return engine.run_spec(ctx, lambda: _as_items(inv(ns)))
 
     # initiation
